@@ -14,6 +14,8 @@ pub mod c06;
 pub mod cmdtable;
 pub mod c15;
 pub mod c16;
+pub mod c17;
+pub mod c19;
 pub mod c20;
 pub mod e1common;
 pub mod smoke;
@@ -28,6 +30,8 @@ pub fn parent_main(prop: &str, tier: &str) -> i32 {
         "C20" => c20::parent(tier),
         "C15" => c15::parent(tier),
         "C05" => c05::parent(tier),
+        "C17" => c17::parent(tier),
+        "C19" => c19::parent(tier),
         "C06" => c06::parent(tier),
         "C16" => c16::parent(tier),
         _ => {
@@ -63,6 +67,14 @@ pub fn worker_main(prop: &str, tier: &str, _slot: usize) {
         }
         "C06" => {
             let mut h = c06::handle_factory();
+            pool::worker_loop(|t, io| h(tier, t, io))
+        }
+        "C17" => {
+            let mut h = c17::handle_factory();
+            pool::worker_loop(|t, io| h(tier, t, io))
+        }
+        "C19" => {
+            let mut h = c19::handle_factory();
             pool::worker_loop(|t, io| h(tier, t, io))
         }
         "C15" => {
